@@ -32,6 +32,7 @@ type Actor struct {
 }
 
 type Gen struct {
+	lastPanic string // message of the last panic recovered inside the generator's own store reads
 	r      *rand.Rand
 	e      *Env
 	actors []Actor
@@ -111,6 +112,31 @@ func (g *Gen) boundPair() (mx, mn []Coin) {
 				}
 			}
 			mx = append(mx, Coin{d, big.NewInt(lo + int64(g.pick(200)))})
+		}
+	}
+	return
+}
+
+// crossedPair: a maximum BELOW the minimum for at least one denomination, both around the prices nodes actually quote
+func (g *Gen) crossedPair() (mx, mn []Coin) {
+	nodes := g.e.vk.Node.GetNodes(g.e.ctx)
+	for d := 1; d <= 2; d++ {
+		p := int64(5 + g.pick(200))
+		if len(nodes) > 0 {
+			n := nodes[g.pick(len(nodes))]
+			for _, c := range append(append(sdk.Coins{}, n.GigabytePrices...), n.HourlyPrices...) {
+				if c.Denom == denomName(d) && c.Amount.IsInt64() && c.Amount.Int64() > 1 && g.chance(0.7) {
+					p = c.Amount.Int64()
+				}
+			}
+		}
+		if d == 1 || g.chance(0.4) {
+			lo := p - int64(1+g.pick(int(p)))
+			if lo < 1 {
+				lo = 1
+			}
+			mx = append(mx, Coin{d, big.NewInt(lo)})
+			mn = append(mn, Coin{d, big.NewInt(p + int64(1+g.pick(50)))})
 		}
 	}
 	return
@@ -408,8 +434,21 @@ func (g *Gen) idOr(ids []uint64) uint64 {
 	return ids[g.pick(len(ids))]
 }
 
-// genTx produces the tokens of one transaction.
-func (g *Gen) genTx() []string {
+// genTx produces the tokens of one transaction.  The generator reads the store through the public keeper getters; on
+// a corrupted store (e.g. an index entry without its record) such a read can panic: the history then goes on with a
+// harmless message (the corruption itself is what the monitors report) and the panic is counted in the statistics.
+func (g *Gen) genTx() (toks []string) {
+	defer func() {
+		if r := recover(); r != nil {
+			g.stats["gen.panic"]++
+			g.lastPanic = fmt.Sprint(r)
+			toks = []string{"sess_end", g.ta('a', g.actors[0].Bytes).Tok(), "999999", "0"}
+		}
+	}()
+	return g.genTx0()
+}
+
+func (g *Gen) genTx0() []string {
 	ctx := g.e.ctx
 	vk := g.e.vk
 	nodes := vk.Node.GetNodes(ctx)
@@ -518,7 +557,7 @@ func (g *Gen) genTx() []string {
 	case "node_register":
 		gbp, n1 := g.priceList()
 		hrp, n2 := g.priceList()
-		if np := vk.Node.GetParams(ctx); g.chance(0.85) && !n1 && !n2 {
+		if np := g.e.nodeParams(ctx); g.chance(0.85) && !n1 && !n2 {
 			gbp = fitBounds(gbp, np.MaxGigabytePrices, np.MinGigabytePrices)
 			hrp = fitBounds(hrp, np.MaxHourlyPrices, np.MinHourlyPrices)
 		}
@@ -526,7 +565,7 @@ func (g *Gen) genTx() []string {
 	case "node_update_details":
 		gbp, n1 := g.priceList()
 		hrp, n2 := g.priceList()
-		if np := vk.Node.GetParams(ctx); g.chance(0.85) && !n1 && !n2 {
+		if np := g.e.nodeParams(ctx); g.chance(0.85) && !n1 && !n2 {
 			gbp = fitBounds(gbp, np.MaxGigabytePrices, np.MinGigabytePrices)
 			hrp = fitBounds(hrp, np.MaxHourlyPrices, np.MinHourlyPrices)
 		}
@@ -541,7 +580,7 @@ func (g *Gen) genTx() []string {
 		return []string{kind, g.maybeHostile(g.ta('n', nodeAddr()), h).Tok(), st(1, 1, 1, 1, 1, 1, 1, 3, 3, 2, 0)}
 	case "node_subscribe":
 		gbv, hrv := int64(0), int64(0)
-		np := vk.Node.GetParams(ctx)
+		np := g.e.nodeParams(ctx)
 		lease := false
 		if len(plans) > 0 && g.chance(0.3) {
 			// a plan's provider leases a linked node by the hour (needed for sessions on plan subscriptions)
@@ -803,7 +842,7 @@ func (g *Gen) genTx() []string {
 		}
 		return []string{kind, g.maybeHostile(g.ta('n', from), h).Tok(), fmt.Sprint(id), up.String(), down.String(), fmt.Sprint(dur), sig, "0"}
 	case "swap":
-		wp := g.e.wk.GetParams(ctx)
+		wp := g.e.swapParams(ctx)
 		from := parseTAddr(textToTok(wp.ApproveBy))
 		hash := g.randBytes(32)
 		if len(g.usedHashes) > 0 && g.chance(0.3) {
@@ -848,11 +887,20 @@ func (g *Gen) genGov() []string {
 	}
 	out := []string{}
 	n := 1 + g.pick(3)
-	np := g.e.vk.Node.GetParams(g.e.ctx)
+	np := g.e.nodeParams(g.e.ctx)
 	for i := 0; i < n; i++ {
 		switch g.pick(12) {
 		case 0, 1, 2:
 			mx, mn := g.boundPair()
+			if g.chance(0.12) {
+				// crossed bounds: the validators are per key, so a minimum above the maximum is accepted; the end-blocker
+				// must still terminate (C03), the price statement (C11) does not apply to such a history any more
+				mx, mn = g.crossedPair()
+				out = append(out, "max_gb", coinsTok(mx, false), "min_gb", coinsTok(mn, false))
+				np.MaxGigabytePrices, np.MinGigabytePrices = coinsSdk(mx), coinsSdk(mn)
+				g.stats["gen.gov.crossed"]++
+				continue
+			}
 			// any subset of the four vectors, but keep min <= max against the vectors that stay
 			// (np tracks the changes already made by this proposal)
 			if g.chance(0.5) {
@@ -869,6 +917,13 @@ func (g *Gen) genGov() []string {
 			}
 		case 3, 4, 5:
 			mx, mn := g.boundPair()
+			if g.chance(0.12) {
+				mx, mn = g.crossedPair()
+				out = append(out, "max_hr", coinsTok(mx, false), "min_hr", coinsTok(mn, false))
+				np.MaxHourlyPrices, np.MinHourlyPrices = coinsSdk(mx), coinsSdk(mn)
+				g.stats["gen.gov.crossed"]++
+				continue
+			}
 			if g.chance(0.5) {
 				out = append(out, "max_hr", coinsTok(mx, false), "min_hr", coinsTok(mn, false))
 				np.MaxHourlyPrices, np.MinHourlyPrices = coinsSdk(mx), coinsSdk(mn)
@@ -964,7 +1019,7 @@ func (g *Gen) goalTx() []string {
 	}
 	ctx := g.e.ctx
 	vk := g.e.vk
-	np := vk.Node.GetParams(ctx)
+	np := g.e.nodeParams(ctx)
 	funded := func(min int64) []Actor {
 		out := []Actor{}
 		for _, a := range g.actors {
@@ -1115,7 +1170,7 @@ func (g *Gen) goalTx() []string {
 func (g *Gen) goalNodeSession() []string {
 	ctx := g.e.ctx
 	vk := g.e.vk
-	np := vk.Node.GetParams(ctx)
+	np := g.e.nodeParams(ctx)
 	var ns *subscriptiontypes.NodeSubscription
 	for _, sb := range vk.Subscription.GetSubscriptions(ctx) {
 		if x, ok := sb.(*subscriptiontypes.NodeSubscription); ok && x.Gigabytes > 0 && x.Status == hubtypes.StatusActive {
